@@ -95,49 +95,52 @@ Definition dec_events (l : list jv) : option (list event) :=
   fold_right (fun v acc => match dec_event v, acc with Some e, Some r => Some (e :: r) | _, _ => None end) (Some []) l.
 
 Definition run1 (k : sexp) (args : list jv) : res jv :=
-  match args with
-  | [JStr s] =>
-      if atom_is "explode" k then ROk (JArr (map (fun c => JInt (Z.of_N c)) (explode s)))
-      else if atom_is "b64" k then ROk (JStr (b64enc s))
-      else if atom_is "b64d" k then of_opt (b64d s)
-      else if atom_is "uri" k then ROk (JStr (uri s))
-      else if atom_is "urid" k then of_opt (urid s)
-      else RUnsup
-  | [JArr l] =>
-      if atom_is "implode" k then
-        match ints_of l with Some zs => ROk (JStr (implode zs)) | None => RUnsup end
-      else if atom_is "from_entries" k then from_entries (JArr l)
-      else if atom_is "paths" k then ROk (JArr (map JArr (paths (JArr l))))
-      else if atom_is "tostream" k then ROk (JArr (map enc_event (tostream (JArr l))))
-      else if atom_is "fromstream" k then
-        match dec_events l with Some evs => bind (fromstream evs) (fun o => ROk (JArr o)) | None => RUnsup end
-      else if atom_is "replay" k then
-        match dec_events l with Some evs => replay JNull (leaves evs) | None => RUnsup end
-      else if atom_is "mktime" k then mktime (JArr l)
-      else RUnsup
-  | [JInt t] => if atom_is "gmtime" k then gmtime t
-                else if atom_is "paths" k then ROk (JArr (map JArr (paths (JInt t))))
-                else if atom_is "tostream" k then ROk (JArr (map enc_event (tostream (JInt t))))
-                else RUnsup
-  | [JStr a; JStr b] =>
-      if atom_is "split" k then ROk (JArr (map JStr (split a b)))
-      else if atom_is "ltrimstr" k then ROk (JStr (ltrimstr a b))
-      else if atom_is "rtrimstr" k then ROk (JStr (rtrimstr a b))
-      else RUnsup
-  | [JStr a; JArr l] =>
-      if atom_is "join" k then
-        match strs_of l with Some ss => ROk (JStr (join a ss)) | None => RUnsup end
-      else RUnsup
-  | [v] =>
-      if atom_is "to_entries" k then to_entries v
-      else if atom_is "with_entries" k then with_entries_id v
-      else if atom_is "paths" k then ROk (JArr (map JArr (paths v)))
-      else if atom_is "tostream" k then ROk (JArr (map enc_event (tostream v)))
-      else RUnsup
-  | [v; JArr p] => if atom_is "getpath" k then getpath p v else RUnsup
-  | [v; JArr p; x] => if atom_is "setpath" k then setpath p x v else RUnsup
-  | _ => RUnsup
-  end.
+  if atom_is "explode" k then
+    match args with [JStr s] => ROk (JArr (map (fun c => JInt (Z.of_N c)) (explode s))) | _ => RUnsup end
+  else if atom_is "implode" k then
+    match args with
+    | [JArr l] => match ints_of l with Some zs => ROk (JStr (implode zs)) | None => RUnsup end
+    | _ => RUnsup
+    end
+  else if atom_is "b64" k then match args with [JStr s] => ROk (JStr (b64enc s)) | _ => RUnsup end
+  else if atom_is "b64d" k then match args with [JStr s] => of_opt (b64d s) | _ => RUnsup end
+  else if atom_is "uri" k then match args with [JStr s] => ROk (JStr (uri s)) | _ => RUnsup end
+  else if atom_is "urid" k then match args with [JStr s] => of_opt (urid s) | _ => RUnsup end
+  else if atom_is "split" k then
+    match args with [JStr sep; JStr s] => ROk (JArr (map JStr (split sep s))) | _ => RUnsup end
+  else if atom_is "join" k then
+    match args with
+    | [JStr sep; JArr l] => match strs_of l with Some ss => ROk (JStr (join sep ss)) | None => RUnsup end
+    | _ => RUnsup
+    end
+  else if atom_is "ltrimstr" k then
+    match args with [JStr p; JStr s] => ROk (JStr (ltrimstr p s)) | _ => RUnsup end
+  else if atom_is "rtrimstr" k then
+    match args with [JStr p; JStr s] => ROk (JStr (rtrimstr p s)) | _ => RUnsup end
+  else if atom_is "getpath" k then match args with [v; JArr p] => getpath p v | _ => RUnsup end
+  else if atom_is "setpath" k then match args with [v; JArr p; x] => setpath p x v | _ => RUnsup end
+  else if atom_is "paths" k then match args with [v] => ROk (JArr (map JArr (paths v))) | _ => RUnsup end
+  else if atom_is "to_entries" k then match args with [v] => to_entries v | _ => RUnsup end
+  else if atom_is "from_entries" k then match args with [v] => from_entries v | _ => RUnsup end
+  else if atom_is "with_entries" k then match args with [v] => with_entries_id v | _ => RUnsup end
+  else if atom_is "tostream" k then
+    match args with [v] => ROk (JArr (map enc_event (tostream v))) | _ => RUnsup end
+  else if atom_is "fromstream" k then
+    match args with
+    | [JArr l] => match dec_events l with
+                  | Some evs => bind (fromstream evs) (fun o => ROk (JArr o))
+                  | None => RUnsup
+                  end
+    | _ => RUnsup
+    end
+  else if atom_is "replay" k then
+    match args with
+    | [JArr l] => match dec_events l with Some evs => replay JNull (leaves evs) | None => RUnsup end
+    | _ => RUnsup
+    end
+  else if atom_is "gmtime" k then match args with [JInt t] => gmtime t | _ => RUnsup end
+  else if atom_is "mktime" k then match args with [v] => mktime v | _ => RUnsup end
+  else RUnsup.
 
 Fixpoint dec_all (l : list sexp) : option (list jv) :=
   match l with
